@@ -36,14 +36,14 @@ type C13Session struct {
 
 type C13Scenario struct {
 	ScenarioBase
-	Cfg           ServerCfg           `json:"cfg"`
-	Sessions      []C13Session        `json:"sessions"`
-	ReaderStallMs int                 `json:"reader_stall_ms"` // per line, keeps reads open in simulated time
-	Wave2         bool                `json:"wave2"`
+	Cfg           ServerCfg    `json:"cfg"`
+	Sessions      []C13Session `json:"sessions"`
+	ReaderStallMs int          `json:"reader_stall_ms"` // per line, keeps reads open in simulated time
+	Wave2         bool         `json:"wave2"`
 	// HoldS: how long a second-wave reader sits on its first line (5 s; 70 s = a
 	// read queued for more than a minute must still wait for a slot)
-	HoldS int `json:"hold_s,omitempty"`
-	Net           verifsimnet.Profile `json:"net"`
+	HoldS int                 `json:"hold_s,omitempty"`
+	Net   verifsimnet.Profile `json:"net"`
 }
 
 func c13Gen(r *Rand, tier string, i int) Scenario {
